@@ -1,6 +1,6 @@
 """C08 - every storage is a uid-keyed map; failed mutations change nothing."""
 import proto
-from common import Failure, Outcome, Broken
+from common import capped, Failure, Outcome, Broken
 from gen import pick
 import stores
 import polcase
@@ -100,9 +100,9 @@ def run_history(kind, rng, nmut, out):
                 p = st.get(a[0])
                 return 'pol -' if p is None else 'pol %d' % pid_of(p)
             if op == 'all':
-                return show_pols(list(st.get_all(a[0], a[1])))
+                return show_pols(capped(st.get_all(a[0], a[1])))
             if op == 'retr':
-                return show_pols(list(st.retrieve_all(a[0])))
+                return show_pols(capped(st.retrieve_all(a[0])))
         except Exception as e:
             return classify(e)
 
